@@ -157,8 +157,9 @@ func (d *Doc) UserCSS() []string {
 // ---------------------------------------------------------------- features
 
 var (
-	identRe   = regexp.MustCompile(`[a-zA-Z_@-][a-zA-Z0-9_-]*\(?`)
-	numFullRe = regexp.MustCompile(`^[-+]?([0-9]+\.?[0-9]*|\.[0-9]+)([eE][-+]?[0-9]+)?`)
+	spanNamedRe = regexp.MustCompile(`(?i)\bspan\s+(\d+\s+)?[a-z_-][a-z0-9_-]*|[a-z_][a-z0-9_-]*\s+span\b`)
+	identRe     = regexp.MustCompile(`[a-zA-Z_@-][a-zA-Z0-9_-]*\(?`)
+	numFullRe   = regexp.MustCompile(`^[-+]?([0-9]+\.?[0-9]*|\.[0-9]+)([eE][-+]?[0-9]+)?`)
 )
 
 type featureSet map[string]bool
@@ -198,6 +199,9 @@ func declFeatures(f featureSet, ds []Decl, where string, fine bool) {
 		}
 		if fine {
 			f.add("in:" + where)
+			if strings.HasPrefix(name, "grid-") && spanNamedRe.MatchString(d.V) {
+				f.add("grid:span-named-line") // `span <ident>` / `span <ident> <n>`: a span counted in named lines
+			}
 			toks := identRe.FindAllString(d.V, -1)
 			if len(toks) > 6 {
 				toks = toks[:6]
@@ -216,6 +220,9 @@ func declFeatures(f featureSet, ds []Decl, where string, fine bool) {
 				v, err := strconv.ParseFloat(m, 64)
 				if err != nil {
 					continue
+				}
+				if (name == "columns" || name == "column-count") && m == w && v >= 100 {
+					f.add("columns:count>=100") // a bare number: hundreds of columns or more
 				}
 				switch {
 				case math.Abs(v) >= 1e6 || math.IsInf(v, 0):
